@@ -20,6 +20,16 @@ CHECKS = {
    "All nestings to depth 2 (quick) / 3 (thorough, 32 621 programs) of if/else, if, while, repeat, exec of local and imported procedures with and without locals; every decision point reads its condition from the advice stack, so all binary answer sequences up to the length bound are the explored schedules, plus one non-binary deviation at every decision prefix. Oracles: reference interpreter (marker-spelled path), behavioural equality with the repeat-unrolled / exec-pasted program, and NotBinaryValue for any non-binary condition.",
    "Reference model refvm trusted; one nested construct per body; answer sequences cut at the stated length bound (count reported).",
    "DESIGN.md §5 C06"),
+ "C07": ("model_checking",
+   "explicit-state BFS over histories of memory / locals / frame-entry actions; every history is assembled and executed on the real VM and interpreted by a reference model whose snapshot is the canonical state",
+   "Actions: element/word loads and stores (stack and immediate address forms), mem_stream, adv_pipe over colliding and failing addresses, local loads/stores, sdepth, caller, extra push/drop, entering and leaving exec / call / syscall / dyncall / dynexec frames with 0/1/4 locals; all histories to depth 2 (full alphabet, 84 actions) and 3 (reduced, 41 actions) in the quick tier, 3 and 4 in the thorough tier, from 4 caller stack depths, frame nesting <= 3. Every load is folded into an accumulator, so a wrong value read in any context changes the final stack; compared: full final stack, error class, memory of every context, fmp/ctx after return; plus locaddr distinctness of simultaneously live frames.",
+   "Reference model refvm (per-context memory, abstract never-aliasing locals) trusted; absolute addresses inside the regions reserved for locals are not exercised; MAST roots for caller/dyn come from the real assembler.",
+   "DESIGN.md §5 C07"),
+ "C03": ("exploration",
+   "bounded-exhaustive enumeration of program families x capacity hints x stated challenge vectors, with the harness' own evaluation loop over the real AIR",
+   "Every program of P1 (every assembly instruction family in every control-flow frame x stack-input regime), the trace-shape family (main-, range-, chiplet-dominated lengths around 2^k, deep outputs) and in the thorough tier all ordered atom pairs, for expected-cycles hints 64/128/1024/8192: every main and auxiliary transition constraint on every non-exempt row and every boundary assertion of ProcessorAir evaluated by the harness (not winterfell's debug validator), trace-length rule checked, main trace identical across hints.",
+   "Challenges: K stated vectors from VERIF_SEED (polynomial-identity argument), not the 2^128 space; programs outside the families not covered.",
+   "DESIGN.md §5 C03"),
 }
 NA_REASON = "check not built yet in this round (planned, see DESIGN.md §11); no claim is made"
 m = {
